@@ -85,6 +85,14 @@ def run_reference(code, inputs):
     return buf.getvalue(), ns, exc, line
 
 
+def R(value):
+    """repr() for messages: an int beyond the interpreter's print limit has none."""
+    try:
+        return repr(value)
+    except (ValueError, RecursionError) as e:
+        return '<%s without repr: %s>' % (type(value).__name__, type(e).__name__)
+
+
 def same_value(a, b, depth=0):
     if (type(a) is not type(b) and type(a).__name__ == type(b).__name__ and hasattr(a, '__dict__') and hasattr(b, '__dict__')
             and not isinstance(a, (type, types.FunctionType, types.ModuleType, BaseException)) and depth < 8):
@@ -112,6 +120,8 @@ def same_value(a, b, depth=0):
         if type(a).__name__ != type(b).__name__:
             return False
         return same_value(vars(a), vars(b), depth + 1)
+    if isinstance(a, (list, tuple, dict)):
+        return repr(a) == repr(b)       # deeper than the structural comparison goes (a list that contains itself never ends)
     try:
         return bool(a == b)
     except Exception:
@@ -246,23 +256,23 @@ def judge(case):
             sb_exc = sb_exc._actual_value
         desc = 'call(%r, %s%s)' % (f, ', '.join(spec['args']), ''.join(', %s=%s' % kv for kv in spec['kwargs'].items()))
         argkind = 'nan/inf' if any(('nan' in a or 'inf' in a) for a in spec['args'] + list(spec['kwargs'].values())) else \
-            ('long-repr' if any(len(repr(a)) > 200 for a in ref_args) else 'plain')
+            ('long-repr' if any(len(R(a)) > 200 for a in ref_args) else 'plain')
         if ref_res[0] == 'ok':
             if sb_exc is not None:
-                viol.append(V('C06|call|sandbox-only-exception|args=%s' % argkind, '%s returns %r in plain Python but fails in the sandbox with %r'
-                              % (desc, ref_res[1], sb_exc)))
+                viol.append(V('C06|call|sandbox-only-exception|args=%s' % argkind, '%s returns %s in plain Python but fails in the sandbox with %r'
+                              % (desc, R(ref_res[1])[:300], sb_exc)))
                 break
             val = got._actual_value if is_sandbox_result(got) else got
             if not same_value(ref_res[1], val):
-                viol.append(V('C06|call|return-value|args=%s' % argkind, '%s returns %r in plain Python, %r in the sandbox' % (desc, ref_res[1], val)))
+                viol.append(V('C06|call|return-value|args=%s' % argkind, '%s returns %s in plain Python, %s in the sandbox' % (desc, R(ref_res[1])[:300], R(val)[:300])))
                 break
             if buf.getvalue() != sb.get_context()[-1].output:
                 viol.append(V('C06|call|stdout', '%s prints %r in plain Python, %r in the sandbox' % (desc, buf.getvalue(), sb.get_context()[-1].output)))
                 break
         else:
             if sb_exc is None:
-                viol.append(V('C06|call|sandbox-missed-exception|args=%s' % argkind, '%s raises %r in plain Python but returned %r in the sandbox'
-                              % (desc, ref_res[1], got)))
+                viol.append(V('C06|call|sandbox-missed-exception|args=%s' % argkind, '%s raises %r in plain Python but returned %s in the sandbox'
+                              % (desc, ref_res[1], R(got)[:300])))
                 break
             if type(sb_exc).__name__ != type(ref_res[1]).__name__:
                 viol.append(V('C06|call|exception-class|args=%s' % argkind, '%s raises %s in plain Python, %s in the sandbox'
